@@ -12,6 +12,8 @@ CONSTANTS
   HostSets = {{}, {"h1"}, {"h1", "h2"}, {"h2", "h3"}}
   Attrs = {"a1"}
   LocLists = {"L0", "L1", "L2", "L3", "L2e"}
+  CModes = {"inline"}
+  RModes = {"inline"}
   Defects = {}
 SPECIFICATION Spec
 INVARIANTS Coherent LastUpdateWins RemovedGone EndpointsUnion ErrorsChangeNothing FrameCondition EmitCase
